@@ -231,6 +231,10 @@ def kindsSorted : List String :=
 /-- the reaction configured by default -/
 def defaultProfile (k : String) : String := if k = "empty" then "ignore" else "raise"
 
+/-- a profile given as overrides of the default one (`seterr` / `errstate` keywords) -/
+def profOf (overrides : List (String × String)) (k : String) : String :=
+  (overrides.lookup k).getD (defaultProfile k)
+
 /-- the test function of each kind, on the half-built table -/
 def fires (M : Mat) (obs samp : List Id) (omd smd : Option (List MdEntry)) (k : String) : Bool :=
   if k = "empty" then obs.isEmpty || samp.isEmpty
@@ -567,6 +571,31 @@ def holdsConstruct (c : Case) (res : Except Err (Table Rat)) : Verdict :=
 /-- tables built from encodings of the same grid: all equal (`==` true for every pair) -/
 def holdsGroup (eqs : List Bool) : Verdict := chk "forms_equal" (eqs.all id)
 
+/-- one later look at a table built from an accepted encoding: after what event, what the table
+shows (IDs, grid by position), and what it answers cell by cell through its own ID lookups
+(`none`: a lookup raised) -/
+structure Stage where
+  what : String
+  table : Table Rat
+  byId : Option Grid
+
+/-- the table still holds exactly the described values and IDs, and answers by ID accordingly -/
+def stageOk (inp : Input) (D : Grid) (st : Stage) : Bool :=
+  tableIs st.table inp.obs inp.samp D && mdIs st.table inp &&
+  match st.byId with
+  | none => false
+  | some g => gridIs g inp.obs.length inp.samp.length &&
+      allCells inp.obs.length inp.samp.length (fun i j => cellD g i j == cellD D i j)
+
+/-- tables built from ONE input object each hold exactly the described values and keep holding them
+after in-place operations on the OTHER table; and the constructor leaves the caller's values as
+they were (`inputKept`), also when it refuses.  (What the caller does to its own objects after
+handing them over is not part of the property.) -/
+def holdsIndependent (inp : Input) (D : Grid) (stages : List Stage) (inputKept : List Bool) : Verdict :=
+  match stages.find? (fun st => !stageOk inp D st) with
+  | some _ => some "independent_table"
+  | none => chk "independent_input" (inputKept.all id)
+
 /-! #### adjacency -/
 
 def sortedB : List String → Bool
@@ -695,6 +724,14 @@ def sameResult (a b : Except Err (Table Rat)) : Bool :=
   | .error e, .error f => e == f
   | _, _ => false
 
+def asProfile (req : Json) : R (List (String × String)) :=
+  match optFld req "profile" with
+  | none => pure []
+  | some p => asList (fun e => do
+      match (← asArr e) with
+      | [k, r] => pure ((← asStr k), (← asStr r))
+      | _ => .error "profile entry") p
+
 def asAdjLine (j : Json) : R AdjLine := do
   pure ⟨(← listF asStr j "f"), (← optF asRat j "num")⟩
 
@@ -713,13 +750,34 @@ def handle (req : Json) : R Json := do
     let inp ← asInput (← fld req "input")
     let c : Case := ⟨inp, (← asGrid (← fld req "grid")), (← natF req "n"), (← natF req "m")⟩
     let res ← asResult (← fld req "result")
-    let model := construct inp
-    pure (answer (holdsConstruct c res) model res (holdsConstruct c model))
+    let prof ← asProfile req
+    let model := constructWith (profOf prof) inp
+    let v := holdsConstruct c res
+    -- the caller's values are as they were after the call, accepted or refused
+    let kept ← boolFD req "input_kept" true
+    let v := match v with | none => chk "input_untouched" kept | some c => some c
+    pure (answer v model res (holdsConstruct c model))
   | "decode" =>
     let inp ← asInput (← fld req "input")
     let res ← asResult (← fld req "result")
-    let model := construct inp
+    let prof ← asProfile req
+    let model := constructWith (profOf prof) inp
     pure (answer none model res none)
+  | "independent" =>
+    let inp ← asInput (← fld req "input")
+    let D ← asGrid (← fld req "grid")
+    let stages ← listF (fun j => do
+      pure (⟨(← strF j "what"), (← asTable (← fld j "table")), (← optF asGrid j "byid")⟩ : Stage)) req "stages"
+    let kept ← listF asBool req "input_kept"
+    let model := construct inp
+    let agree := stages.all (fun st => sameResult model (.ok st.table))
+    let mstages := match model with
+      | .ok t => stages.map (fun st => (⟨st.what, t, some t.rows⟩ : Stage))
+      | .error _ => []
+    pure (Json.mkObj (verdictToJson (holdsIndependent inp D stages kept) ++
+      [("agree", .bool agree), ("model", resultToJson model),
+       ("model_holds", .bool ((holdsIndependent inp D mstages (kept.map (fun _ => true))).isNone &&
+          mstages.length == stages.length))]))
   | "group" =>
     let eqs ← listF asBool req "eqs"
     pure (Json.mkObj (verdictToJson (holdsGroup eqs) ++ [("agree", .bool true), ("model", .null),
